@@ -684,3 +684,37 @@ def rule_infer_mark(db: ProgramDB) -> List[Instance]:
                         ("a flattened expression has no such mark (AttributeError), and a variable with a domain that is marked stops ranging over its domain, so the "
                          "rule matches nothing" if got else "its value would be taken from existing instances instead of from the conclusions"), line=mark.lineno))
     return out
+
+
+# ---------------------------------------------------------------------------------- INFER-MARK (transient)
+INFERRED_AT_CONSTRUCTION_OK = {
+    "Conclusion.__post_init__": "the concluded value (the term written in the conclusion) is marked: it is constructed, never looked up",
+}
+
+
+def rule_infer_mark_transient(db: ProgramDB) -> List[Instance]:
+    """'Inferred' is a state of a variable DURING the evaluation of the rule that infers it.  Variables are shared between
+    queries, so the mark is given by evaluation code (and taken back: EVAL-STATE-RESET), never at construction time - a rule
+    that marks its selected variables when it is built switches every other query over them to 'ranges over nothing'."""
+    out = []
+    se = db.cls("SymbolicExpression")
+    n = 0
+    for c in sorted([se] + se.all_subclasses(), key=lambda k: k.qualname):
+        for name in ("__post_init__", "__init__"):
+            m = c.methods.get(name)
+            if m is None or m.cls is not c:
+                continue
+            for a in own_nodes(m.node):
+                if isinstance(a, ast.Assign) and isinstance(a.value, ast.Constant) and a.value.value is True:
+                    for t in a.targets:
+                        if isinstance(t, ast.Attribute) and t.attr == "_is_inferred_" and not (isinstance(t.value, ast.Name) and t.value.id == "self"):
+                            n += 1
+                            why = INFERRED_AT_CONSTRUCTION_OK.get(m.short)
+                            out.append(inst("INFER-MARK", HOLDS if why else VIOLATION, m, f"{m.short}[{unparse(t)} = True at construction]",
+                                            f"confirmed exception: {why}" if why else
+                                            f"`{unparse(a)}` marks another node as inferred when this node is BUILT: the mark is never taken back, so after infer(entity(views, …)) "
+                                            f"was written a plain query over `views` ranges over nothing, while a fresh variable of the same type sees the instances",
+                                            line=a.lineno))
+    if n == 0:
+        out.append(inst("INFER-MARK", INFO, se, "constructors[no foreign inferred mark]", "no constructor marks another node as inferred"))
+    return out
